@@ -502,4 +502,169 @@ theorem E_congr {c c' : Circuit} (h1 : c'.ne = c.ne) (h2 : c'.np = c.np) (h3 : c
   funext a b
   simp only [Circuit.E, Circuit.edgesV, Circuit.regs, Circuit.aug, h1, h2, h3, h4]
 
+/-! ## 4. well-formedness under the elementary edits -/
+
+theorem WF_insertAt (c : Circuit) (op : Op) (es : List Edge) (hwf : c.WF)
+    (hnd : (es.map (·.r)).Nodup) (hv : ∀ e, e ∈ es → c.validReg e.r = true)
+    (hq : ∀ r : Reg, r.ty ≠ .c → (r ∈ es.map (·.r) ↔ r ∈ op.q))
+    (hc : ∀ i, (⟨.c, i⟩ : Reg) ∈ es.map (·.r) → i ∈ op.cr)
+    (hqv : ∀ r, r ∈ op.q → c.validReg r = true ∧ r.ty ≠ .c) :
+    (c.insertAt op es).WF := by
+  have hk : ∀ r, (c.nid + 1) ∉ c.wire r := fun r h => by
+    have := hwf.wire_le h
+    omega
+  have hnode : ∀ n, n ≠ c.nid + 1 → (c.insertAt op es).node n = c.node n := fun n hn => by
+    rw [insertAt_node, if_neg hn]
+  have hnodek : (c.insertAt op es).node (c.nid + 1) = some op := by rw [insertAt_node, if_pos rfl]
+  constructor
+  · intro n op' h
+    rw [insertAt_node] at h
+    rw [insertAt_nid]
+    by_cases hn : n = c.nid + 1
+    · subst hn; omega
+    · rw [if_neg hn] at h
+      have := hwf.bound n op' h
+      omega
+  · intro r hr
+    rw [insertAt_validReg] at hr
+    have hnot : r ∉ es.map (·.r) := by
+      intro h
+      obtain ⟨e, he, rfl⟩ := List.mem_map.mp h
+      rw [hv e he] at hr
+      cases hr
+    rw [insertAt_wire_of_not_mem c op es r hnot]
+    exact hwf.invalidEmpty r hr
+  · intro r n h
+    rcases (mem_insertAt_wire c op es hnd r n).mp h with h | ⟨rfl, _⟩
+    · have hle := hwf.wire_le h
+      rw [hnode n (by omega)]
+      exact hwf.onNode r n h
+    · rw [hnodek]; rfl
+  · intro r
+    by_cases hr : r ∈ es.map (·.r)
+    · obtain ⟨e, he, rfl⟩ := List.mem_map.mp hr
+      rw [insertAt_wire_of_mem c op es hnd e he]
+      exact nodup_ins (hwf.nodup e.r) (hk e.r)
+    · rw [insertAt_wire_of_not_mem c op es r hr]
+      exact hwf.nodup r
+  · intro n op' h r hr
+    rw [mem_insertAt_wire c op es hnd r n]
+    by_cases hn : n = c.nid + 1
+    · subst hn
+      rw [hnodek] at h
+      cases h
+      constructor
+      · rintro (h | ⟨_, h⟩)
+        · exact absurd h (hk r)
+        · exact (hq r hr).mp h
+      · intro h
+        exact Or.inr ⟨rfl, (hq r hr).mpr h⟩
+    · rw [hnode n hn] at h
+      rw [← hwf.qwire n op' h r hr]
+      constructor
+      · rintro (h | ⟨h, _⟩)
+        · exact h
+        · exact absurd h hn
+      · exact Or.inl
+  · intro n op' h r hr
+    rw [insertAt_validReg]
+    by_cases hn : n = c.nid + 1
+    · subst hn
+      rw [hnodek] at h
+      cases h
+      exact hqv r hr
+    · rw [hnode n hn] at h
+      exact hwf.qvalid n op' h r hr
+  · intro n op' h i hi
+    rcases (mem_insertAt_wire c op es hnd _ n).mp hi with hi' | ⟨hn, hi'⟩
+    · have hle := hwf.wire_le hi'
+      rw [hnode n (by omega)] at h
+      exact hwf.cwire n op' h i hi'
+    · subst hn
+      rw [hnodek] at h
+      cases h
+      exact hc i hi'
+
+theorem removeOp_node (c : Circuit) (n m : Nat) : (c.removeOp n).node m = if m = n then none else c.node m := rfl
+
+theorem mem_removeOp_wire (c : Circuit) (n m : Nat) (r : Reg) : m ∈ (c.removeOp n).wire r ↔ m ∈ c.wire r ∧ m ≠ n := by
+  simp [Circuit.removeOp]
+
+theorem WF_removeOp (c : Circuit) (n0 : Nat) (hwf : c.WF) : (c.removeOp n0).WF := by
+  have hnode : ∀ m op, (c.removeOp n0).node m = some op → m ≠ n0 ∧ c.node m = some op := by
+    intro m op h
+    rw [removeOp_node] at h
+    by_cases hm : m = n0
+    · rw [if_pos hm] at h; cases h
+    · rw [if_neg hm] at h; exact ⟨hm, h⟩
+  constructor
+  · intro m op h
+    exact hwf.bound m op (hnode m op h).2
+  · intro r hr
+    have := hwf.invalidEmpty r hr
+    simp [Circuit.removeOp, this]
+  · intro r m h
+    obtain ⟨h1, h2⟩ := (mem_removeOp_wire c n0 m r).mp h
+    rw [removeOp_node, if_neg h2]
+    exact hwf.onNode r m h1
+  · intro r
+    exact (hwf.nodup r).filter _
+  · intro m op h r hr
+    obtain ⟨hm, h'⟩ := hnode m op h
+    rw [mem_removeOp_wire, ← hwf.qwire m op h' r hr]
+    exact ⟨fun h => h.1, fun h => ⟨h, hm⟩⟩
+  · intro m op h r hr
+    exact hwf.qvalid m op (hnode m op h).2 r hr
+  · intro m op h i hi
+    exact hwf.cwire m op (hnode m op h).2 i ((mem_removeOp_wire c n0 m _).mp hi).1
+
+theorem WF_setNode (c : Circuit) (n0 : Nat) (old op' : Op) (hwf : c.WF) (hold : c.node n0 = some old)
+    (hq : old.q = op'.q) (hcr : old.cr = op'.cr) : (c.setNode n0 (some op')).WF := by
+  have hnode : ∀ m, (c.setNode n0 (some op')).node m = if m = n0 then some op' else c.node m := fun _ => rfl
+  constructor
+  · intro m op h
+    rw [hnode] at h
+    by_cases hm : m = n0
+    · subst hm; exact hwf.bound m old hold
+    · rw [if_neg hm] at h; exact hwf.bound m op h
+  · exact hwf.invalidEmpty
+  · intro r m h
+    rw [hnode]
+    by_cases hm : m = n0
+    · rw [if_pos hm]; rfl
+    · rw [if_neg hm]; exact hwf.onNode r m h
+  · exact hwf.nodup
+  · intro m op h r hr
+    rw [hnode] at h
+    by_cases hm : m = n0
+    · subst hm
+      rw [if_pos rfl] at h
+      cases h
+      rw [← hq]
+      exact hwf.qwire m old hold r hr
+    · rw [if_neg hm] at h; exact hwf.qwire m op h r hr
+  · intro m op h r hr
+    rw [hnode] at h
+    by_cases hm : m = n0
+    · subst hm
+      rw [if_pos rfl] at h
+      cases h
+      rw [← hq] at hr
+      exact hwf.qvalid m old hold r hr
+    · rw [if_neg hm] at h; exact hwf.qvalid m op h r hr
+  · intro m op h i hi
+    rw [hnode] at h
+    by_cases hm : m = n0
+    · subst hm
+      rw [if_pos rfl] at h
+      cases h
+      rw [← hcr]
+      exact hwf.cwire m old hold i hi
+    · rw [if_neg hm] at h; exact hwf.cwire m op h i hi
+
+theorem acyclic_setNode (c : Circuit) (n0 : Nat) (o : Option Op) (hac : c.Acyclic) : (c.setNode n0 o).Acyclic := by
+  unfold Circuit.Acyclic
+  rw [E_congr (c := c) (c' := c.setNode n0 o) rfl rfl rfl rfl]
+  exact hac
+
 end Graphiq.Wire
